@@ -94,9 +94,13 @@ var _ time.Time // lemmas below name package time
 //@   loop 0 decreases n-pos
 //@   ensures decoded: wire3(b, n, 1025, 1281, 1537) ==> result == nil && int(c.ID) == w16(b, 4) && sameslice(c.Nonce, b[10:10+w16(b, 8)]) && sameslice(c.Ciphertext, b[14+w16(b, 8):n])
 
+// A cookie yields a plaintext only if the AEAD opened under exactly the given key, with the cookie's own nonce and
+// ciphertext (no associated data).
 //@ func (*EncryptedServerCookie).Decrypt
+//@   aead open
 //@   requires c != nil
 //@   allocates
+//@   ensures opened: result1 == nil ==> opened() && sameslice(lastOpenKey(), key) && sameslice(lastOpenNonce(), c.Nonce) && sameslice(lastOpenCT(), c.Ciphertext) && len(lastOpenAD()) == 0
 
 //@ func (*ServerCookie).Encode
 //@   requires c != nil
@@ -147,10 +151,12 @@ var _ time.Time // lemmas below name package time
 //@   requires config != nil
 //@   ensures fresh: result2 == nil ==> result0 != nil && freshData(result1) && result1.Port == 123
 //@   ensures alpn: result2 == nil ==> state.NegotiatedProtocol == "ntske/1"
+//@   ensures hs: result2 == nil ==> tlsdone()
 //@ func dialQUIC
 //@   trusted
 //@   allocates
 //@   ensures result2 == nil ==> result0 != nil && result0.Connection != nil
+//@   ensures hs: result2 == nil ==> tlsdone()
 //@ func exchangeDataTLS
 //@   trusted
 //@   requires data != nil
@@ -165,8 +171,11 @@ var _ time.Time // lemmas below name package time
 //@   ensures result == nil ==> len(data.Cookie) >= old(len(data.Cookie)) && sameslice(data.C2sKey, old(data.C2sKey)) && sameslice(data.S2cKey, old(data.S2cKey))
 //@ pred exportedFor(k, dir) = exportlabel(k) == "EXPORTER-network-time-security" && exportctxlen(k) == 5 && exportctxbyte(k, 0) == 0 && exportctxbyte(k, 1) == 0 && exportctxbyte(k, 2) == 0 && exportctxbyte(k, 3) == 15 && exportctxbyte(k, 4) == dir
 // The exported keys are 32 bytes each (AES-SIV-CMAC-256): checked against a model of the TLS exporter.
+// crypto/tls: ExportKeyingMaterial on a connection state taken before the handshake completed calls a nil exporter
+// function (panic): the state handed in must come from a completed handshake.
 //@ func ExportKeys
 //@   requires data != nil
+//@   requires handshake: cs.HandshakeComplete
 //@   modifies data.C2sKey, data.S2cKey
 //@   allocates
 //@   ensures keylen: result == nil ==> lenof(data.C2sKey) == 32 && lenof(data.S2cKey) == 32
@@ -257,3 +266,4 @@ func verifEncryptedCookieRoundTrip(c *EncryptedServerCookie, q *EncryptedServerC
 //@   loop 0 iterensures pool: len(data.Cookie) != prev(len(data.Cookie)) ==> rtype(lastreadof(RecordHdr{})) == 5 && len(data.Cookie) == prev(len(data.Cookie))+1
 //@   loop 0 iterensures whole: rtype(lastreadof(RecordHdr{})) == 5 ==> lastreadn() == lastreadwant()
 //@   ensures eom: result == nil ==> rtype(lastreadof(RecordHdr{})) == 0
+//@   ensures hs: result == nil ==> tlsdone()
